@@ -1,6 +1,10 @@
+mod c12;
 mod c51;
 mod sched;
 use vkit::{Check, Level};
 fn main() {
-    vkit::main(&[Check { id: "C51", level: Level::ModelChecking, run: c51::run }]);
+    vkit::main(&[
+        Check { id: "C51", level: Level::ModelChecking, run: c51::run },
+        Check { id: "C12", level: Level::ModelChecking, run: c12::run },
+    ]);
 }
